@@ -32,9 +32,9 @@ def _alarm(signum, frame):
 
 _PROP = None
 
-def _impl_one(case):
+def _impl_one(case, scale=1):
     prop = _PROP
-    t = getattr(prop, 'CASE_TIMEOUT', 10)
+    t = getattr(prop, 'CASE_TIMEOUT', 10) * scale
     signal.signal(signal.SIGALRM, _alarm)
     signal.setitimer(signal.ITIMER_REAL, t)
     try:
@@ -61,16 +61,36 @@ def _init_worker(modname):
 def _impl_chunk(chunk):
     return [_impl_one(c) for c in chunk]
 
+SLOW_RETRY = 4      # cases that hit the per-case time limit while all cores were busy are run once more, alone,
+SLOW_SCALE = 6      # with SLOW_SCALE times the limit, before "did not finish" is believed (a loaded or slower machine
+                    # must not turn into an alarm; a genuinely non-terminating case still times out)
+
+def _impl_one_slow(case):
+    return _impl_one(case, SLOW_SCALE)
+
+def _retry_slow(prop, cases, out, ctx):
+    import concurrent.futures as cf
+    slow = [i for i, o in enumerate(out) if isinstance(o, list) and o and o[0] == 'harness-timeout']
+    per_case = getattr(prop, 'CASE_TIMEOUT', 10)
+    for i in slow[:SLOW_RETRY]:
+        try:
+            with cf.ProcessPoolExecutor(1, mp_context=ctx, initializer=_init_worker, initargs=(prop.__name__,)) as ex1:
+                out[i] = ex1.submit(_impl_one_slow, cases[i]).result(timeout=per_case * SLOW_SCALE + 120)
+        except Exception as e:
+            out[i] = ['harness-crashed', type(e).__name__]
+        log(getattr(prop, 'ID', '?'), 'case %d hit the time limit; run again alone with %dx the limit: %s' % (i, SLOW_SCALE, 'finished' if not (isinstance(out[i], list) and out[i] and out[i][0] == 'harness-timeout') else 'still not finished'))
+    return out
+
 def run_impl(prop, cases, jobs=None):
     """Runs prop.impl on every case in forked worker processes.  A worker that dies (CPython aborts the process on
     some stack overflows) or a chunk that does not come back in time does not hang the check: its cases are re-run
     one by one, each in a process of its own, and a case that kills its process is reported as ['harness-crashed']."""
     import concurrent.futures as cf
     jobs = jobs or coqrun.NCPU
+    ctx = multiprocessing.get_context('fork')
     if getattr(prop, 'IMPL_IN_PROCESS', False) or len(cases) < 8:
         _init_worker(prop.__name__)
-        return [_impl_one(c) for c in cases]
-    ctx = multiprocessing.get_context('fork')
+        return _retry_slow(prop, cases, [_impl_one(c) for c in cases], ctx)
     nproc = min(jobs, max(1, len(cases) // 4))
     size = max(1, min(64, len(cases) // (jobs * 4) or 1))
     chunks = [(i, cases[i:i + size]) for i in range(0, len(cases), size)]
@@ -99,7 +119,7 @@ def run_impl(prop, cases, jobs=None):
                     out[i + k] = ex1.submit(_impl_one, c).result(timeout=per_case + 120)
             except Exception as e:
                 out[i + k] = ['harness-crashed', type(e).__name__]
-    return out
+    return _retry_slow(prop, cases, out, ctx)
 
 # ------------------------------------------------------------------ model side
 
